@@ -218,41 +218,96 @@ Qed.
 (* a storage operation can fail by an injected fault or, on a file store, by a taken file name *)
 Definition may_fail (tc : tcfg) (fa : option nat) : Prop := fa <> None \/ t_key tc = KFile.
 
+(* [stepsk]: steps, with the key discipline in view: a new entry is the one Push writes for its
+   descriptor, and an unnamed new entry was not already there for Push (no ErrAlreadyExists) *)
+Definition as_desc (e : entry) : desc := mkDesc (e_mt e) (e_dg e) (e_sz e) [] [] no_extra.
+Definition fresh (k : keykind) (st : list entry) (e : entry) : Prop :=
+  is_nil (e_name e) = true -> push_dup k st (as_desc e) = false.
+Definition pushed_by (k : keykind) (evs : list event) (e : entry) : Prop :=
+  exists r d bytes, In (EvPush r d bytes) evs /\ e = mkEntry (d_mt d) (d_dg d) (d_sz d) bytes (entry_name k d).
+
+Definition stepsk (k : keykind) (s s' : state) (evs : list event) : Prop :=
+  steps s s' evs /\
+  exists l, s_store s' = s_store s ++ l /\ Forall (pushed_by k evs) l /\ Forall (fresh k (s_store s)) l.
+
+Lemma stepsk_steps k s s' evs : stepsk k s s' evs -> steps s s' evs.
+Proof. now intros [S _]. Qed.
+
+Lemma stepsk_refl k s : stepsk k s s [].
+Proof. split; [apply steps_refl|]. exists nil. split; [now rewrite app_nil_r|]. split; constructor. Qed.
+
+Lemma push_dup_app k st l d : push_dup k (st ++ l) d = push_dup k st d || push_dup k l d.
+Proof. unfold push_dup. apply existsb_app. Qed.
+
+Lemma pushed_by_mono k e1 e2 e : pushed_by k e1 e \/ pushed_by k e2 e -> pushed_by k (e1 ++ e2) e.
+Proof.
+  intros [(r & d & bs & I & E) | (r & d & bs & I & E)]; exists r, d, bs; split; auto; apply in_or_app; auto.
+Qed.
+
+Lemma stepsk_trans k s s1 s2 e1 e2 : stepsk k s s1 e1 -> stepsk k s1 s2 e2 -> stepsk k s s2 (e1 ++ e2).
+Proof.
+  intros (S1 & l1 & C1 & P1 & F1) (S2 & l2 & C2 & P2 & F2). split; [eapply steps_trans; eauto|].
+  exists (l1 ++ l2). split; [now rewrite C2, C1, app_assoc|]. split.
+  - apply Forall_app. split.
+    + eapply Forall_impl; [|exact P1]. intros e Pe. apply pushed_by_mono. now left.
+    + eapply Forall_impl; [|exact P2]. intros e Pe. apply pushed_by_mono. now right.
+  - apply Forall_app. split; auto. eapply Forall_impl; [|exact F2]. intros e Fr N.
+    specialize (Fr N). rewrite C1, push_dup_app in Fr. now apply orb_false_iff in Fr as [Fr _].
+Qed.
+
+Lemma stored_stepsk bd s s' evs d :
+  stepsk bd s s' evs -> stored bd (s_store s) d = true -> stored bd (s_store s') d = true.
+Proof. intros [S _]. eapply stored_steps; eauto. Qed.
+
+Lemma stepsk_nogrow k s ev :
+  stepsk k s (tick s ev) [ev].
+Proof.
+  split.
+  - split; [reflexivity|]. split; [simpl; lia|]. exists nil. split; [now rewrite app_nil_r | constructor].
+  - exists nil. split; [simpl; now rewrite app_nil_r|]. split; constructor.
+Qed.
+
 Lemma do_exists_spec tc fa s d s' r :
   do_exists tc fa s d = (s', r) ->
-  steps s s' [EvExists d] /\
+  stepsk (t_key tc) s s' [EvExists d] /\
   (r = None -> may_fail tc fa) /\
   (r = Some true -> stored (t_key tc) (s_store s') d = true).
 Proof.
-  unfold do_exists. destruct (faulty fa s) eqn:F; intros [= <- <-]; (split; [|split]); try discriminate.
-  - split; [reflexivity|]. split; [simpl; lia|]. exists nil. split; [now rewrite app_nil_r | constructor].
+  unfold do_exists. destruct (faulty fa s) eqn:F; intros [= <- <-]; (split; [apply stepsk_nogrow|split]);
+    try discriminate.
   - intros _. left. intro E. subst fa. discriminate.
-  - split; [reflexivity|]. split; [simpl; lia|]. exists nil. split; [now rewrite app_nil_r | constructor].
   - simpl. congruence.
 Qed.
 
+Lemma push_dup_as_desc k st d bytes n :
+  push_dup k st (as_desc (mkEntry (d_mt d) (d_dg d) (d_sz d) bytes n)) = push_dup k st d.
+Proof. reflexivity. Qed.
+
 Lemma do_push_spec tc fa s r d bytes s' ok :
   do_push tc fa s r d bytes = (s', ok) ->
-  steps s s' [EvPush r d bytes] /\
+  stepsk (t_key tc) s s' [EvPush r d bytes] /\
   (ok = false -> may_fail tc fa) /\
   (ok = true -> stored (t_key tc) (s_store s') d = true).
 Proof.
   unfold do_push.
-  assert (NoGrow : steps s (tick s (EvPush r d bytes)) [EvPush r d bytes]).
-  { split; [reflexivity|]. split; [simpl; lia|]. exists nil. split; [now rewrite app_nil_r | constructor]. }
   destruct (faulty fa s) eqn:F.
-  { intros [= <- <-]. split; [exact NoGrow|]. split; [|discriminate].
+  { intros [= <- <-]. split; [apply stepsk_nogrow|]. split; [|discriminate].
     intros _. left. intro E. subst fa. discriminate. }
   destruct (push_refused (t_key tc) (s_store s) d) eqn:R.
-  { intros [= <- <-]. split; [exact NoGrow|]. split; [|discriminate].
+  { intros [= <- <-]. split; [apply stepsk_nogrow|]. split; [|discriminate].
     intros _. right. unfold push_refused in R. destruct (t_key tc); try discriminate. reflexivity. }
   destruct (is_nil (entry_name (t_key tc) d) && push_dup (t_key tc) (s_store s) d) eqn:D; intros [= <- <-].
-  - apply andb_true_iff in D as [D1 D2]. split; [exact NoGrow|]. split; [discriminate|].
+  - apply andb_true_iff in D as [D1 D2]. split; [apply stepsk_nogrow|]. split; [discriminate|].
     intros _. simpl. now apply push_dup_stored.
   - split.
-    + split; [reflexivity|]. split; [simpl; lia|].
-      exists [mkEntry (d_mt d) (d_dg d) (d_sz d) bytes (entry_name (t_key tc) d)]. split; auto.
-      constructor; [|constructor]. exists r, d, bytes, (entry_name (t_key tc) d). simpl; auto.
+    + split.
+      * split; [reflexivity|]. split; [simpl; lia|].
+        exists [mkEntry (d_mt d) (d_dg d) (d_sz d) bytes (entry_name (t_key tc) d)]. split; auto.
+        constructor; [|constructor]. exists r, d, bytes, (entry_name (t_key tc) d). simpl; auto.
+      * exists [mkEntry (d_mt d) (d_dg d) (d_sz d) bytes (entry_name (t_key tc) d)]. split; [reflexivity|].
+        split; (constructor; [|constructor]).
+        -- exists r, d, bytes. simpl; auto.
+        -- intro N. cbn [e_name] in N. rewrite push_dup_as_desc. rewrite N in D. exact D.
     + split; [discriminate|]. intros _. simpl. apply stored_pushed.
 Qed.
 
@@ -272,26 +327,33 @@ Section PackProofs.
     | EvPush RManifest _ _ => False
     end.
 
+  (* ... and that concern descriptor d *)
+  Definition own (d : desc) (ev : event) : Prop :=
+    blob_ev ev /\ (ev = EvExists d \/ ev = EvPush RBlob d empty_json).
+
   Lemma pine_spec tc fa s d s' ok :
     blob_desc d ->
     push_if_not_exist tc fa s d empty_json = (s', ok) ->
-    exists evs, steps s s' evs /\ Forall blob_ev evs /\
+    exists evs, stepsk (t_key tc) s s' evs /\ Forall (own d) evs /\
                 (ok = false -> may_fail tc fa) /\
                 (ok = true -> stored (t_key tc) (s_store s') d = true).
   Proof.
-    intros Bd. unfold push_if_not_exist. destruct (t_exists tc).
+    intros Bd.
+    assert (OX : own d (EvExists d)) by (split; [exact Bd | left; reflexivity]).
+    assert (OP : own d (EvPush RBlob d empty_json)) by (split; [split; auto | right; reflexivity]).
+    unfold push_if_not_exist. destruct (t_exists tc).
     - destruct (do_exists tc fa s d) as [s1 r] eqn:E. apply do_exists_spec in E as (S1 & F1 & T1).
       destruct r as [[|]|].
       + intros [= <- <-]. exists [EvExists d]. split; [exact S1|].
-        split; [constructor; [exact Bd | constructor]|]. split; [discriminate | auto].
+        split; [constructor; [exact OX | constructor]|]. split; [discriminate | auto].
       + intro P. apply do_push_spec in P as (S2 & F2 & T2).
-        exists ([EvExists d] ++ [EvPush RBlob d empty_json]). split; [eapply steps_trans; eauto|].
-        split; [|split; auto]. constructor; [exact Bd|]. constructor; [split; auto | constructor].
+        exists ([EvExists d] ++ [EvPush RBlob d empty_json]). split; [eapply stepsk_trans; eauto|].
+        split; [|split; auto]. constructor; [exact OX|]. constructor; [exact OP | constructor].
       + intros [= <- <-]. exists [EvExists d]. split; [exact S1|].
-        split; [constructor; [exact Bd | constructor]|]. split; [auto | discriminate].
+        split; [constructor; [exact OX | constructor]|]. split; [auto | discriminate].
     - intro P. apply do_push_spec in P as (S2 & F2 & T2).
       exists [EvPush RBlob d empty_json]. split; [exact S2|]. split; [|split; auto].
-      constructor; [split; auto | constructor].
+      constructor; [exact OP | constructor].
   Qed.
 
   (* ---------------------------------------------------------------- *)
@@ -376,7 +438,20 @@ Section PackProofs.
            (match f with
             | FV10 | FRC2 => match m_config m with Some c => d_mt c | None => [] end
             | _ => m_at m
-            end) [].
+            end) no_extra.
+
+  (* the storage operations before the manifest push: on "{}", for a descriptor Pack invented *)
+  Definition inv_ev (f : fn) (at_ : str) (o : opts) (ev : event) : Prop :=
+    blob_ev ev /\ exists d, In d (invented f at_ o) /\ (ev = EvExists d \/ ev = EvPush RBlob d empty_json).
+
+  Lemma own_inv f at_ o d evs :
+    In d (invented f at_ o) -> Forall (own d) evs -> Forall (inv_ev f at_ o) evs.
+  Proof.
+    intros I F. eapply Forall_impl; [|exact F]. intros ev [B E]. split; [exact B | exists d; auto].
+  Qed.
+
+  Lemma inv_blob f at_ o evs : Forall (inv_ev f at_ o) evs -> Forall blob_ev evs.
+  Proof. intro F. eapply Forall_impl; [|exact F]. intros ev [B _]. exact B. Qed.
 
   Inductive outcome (f : fn) (tc : tcfg) (fa : option nat) (s : state) (at_ : str) (o : opts) (now : str)
     : state -> result -> Prop :=
@@ -386,31 +461,31 @@ Section PackProofs.
   | OutBadCreated s' evs :
       must_reject f at_ o = false ->
       ensure_created (o_ann o) (created_key f) now = None ->
-      steps s s' evs -> Forall blob_ev evs ->
+      stepsk (t_key tc) s s' evs -> Forall (inv_ev f at_ o) evs ->
       outcome f tc fa s at_ o now s' (Err EInvalidDateTime)
   | OutFaultBlob s' evs :
       must_reject f at_ o = false -> may_fail tc fa ->
-      steps s s' evs -> Forall blob_ev evs ->
+      stepsk (t_key tc) s s' evs -> Forall (inv_ev f at_ o) evs ->
       outcome f tc fa s at_ o now s' (Err EInjected)
   | OutFaultManifest s' evs ann m :
       must_reject f at_ o = false -> may_fail tc fa ->
       ensure_created (o_ann o) (created_key f) now = Some ann ->
       m = requested_manifest f at_ o ann ->
-      steps s s' (evs ++ [EvPush RManifest (result_desc f m) (marshal m)]) -> Forall blob_ev evs ->
+      stepsk (t_key tc) s s' (evs ++ [EvPush RManifest (result_desc f m) (marshal m)]) -> Forall (inv_ev f at_ o) evs ->
       outcome f tc fa s at_ o now s' (Err EInjected)
   | OutOk s' evs ann m :
       must_reject f at_ o = false ->
       ensure_created (o_ann o) (created_key f) now = Some ann ->
       m = requested_manifest f at_ o ann ->
-      steps s s' (evs ++ [EvPush RManifest (result_desc f m) (marshal m)]) -> Forall blob_ev evs ->
+      stepsk (t_key tc) s s' (evs ++ [EvPush RManifest (result_desc f m) (marshal m)]) -> Forall (inv_ev f at_ o) evs ->
       stored (t_key tc) (s_store s') (result_desc f m) = true ->
       Forall (fun x => stored (t_key tc) (s_store s') x = true) (invented f at_ o) ->
       outcome f tc fa s at_ o now s' (Ok (result_desc f m) m).
 
   Lemma push_manifest_spec tc fa s m at_ s' r :
     push_manifest marshal H tc fa s m at_ = (s', r) ->
-    forall d, d = mkDesc (kind_mt (m_kind m)) (H (marshal m)) (Z.of_nat (length (marshal m))) (m_ann m) at_ [] ->
-    steps s s' [EvPush RManifest d (marshal m)] /\
+    forall d, d = mkDesc (kind_mt (m_kind m)) (H (marshal m)) (Z.of_nat (length (marshal m))) (m_ann m) at_ no_extra ->
+    stepsk (t_key tc) s s' [EvPush RManifest d (marshal m)] /\
     (r = Ok d m /\ stored (t_key tc) (s_store s') d = true \/ r = Err EInjected /\ may_fail tc fa).
   Proof.
     unfold push_manifest. intros P d ->.
@@ -429,7 +504,7 @@ Section PackProofs.
   Lemma pcec_spec tc fa s mt ann s' r :
     push_custom_empty_config H tc fa s mt ann = (s', r) ->
     forall d, d = with_ann (desc_from_bytes H mt empty_json) ann ->
-    exists evs, steps s s' evs /\ Forall blob_ev evs /\
+    exists evs, stepsk (t_key tc) s s' evs /\ Forall (own d) evs /\
       (r = Some d /\ stored (t_key tc) (s_store s') d = true \/ r = None /\ may_fail tc fa).
   Proof.
     unfold push_custom_empty_config. intros P d ->.
@@ -453,7 +528,7 @@ Section PackProofs.
           [reflexivity | exact EC | reflexivity | exact S1 | constructor | exact St | constructor].
       + apply (OutFaultManifest FArtifact tc fa s at_ o now s' [] ann (requested_manifest FArtifact at_ o ann));
           [reflexivity | exact F | exact EC | reflexivity | exact S1 | constructor].
-    - intros [= <- <-]. apply (OutBadCreated FArtifact tc fa s at_ o now s []); auto using steps_refl.
+    - intros [= <- <-]. apply (OutBadCreated FArtifact tc fa s at_ o now s []); auto using stepsk_refl.
   Qed.
 
   Ltac mr V :=
@@ -465,7 +540,7 @@ Section PackProofs.
   Lemma final_outcome f tc fa s at_ o now s1 evs ann m at' s' r :
     must_reject f at_ o = false ->
     ensure_created (o_ann o) (created_key f) now = Some ann ->
-    steps s s1 evs -> Forall blob_ev evs ->
+    stepsk (t_key tc) s s1 evs -> Forall (inv_ev f at_ o) evs ->
     Forall (fun x => stored (t_key tc) (s_store s1) x = true) (invented f at_ o) ->
     m = requested_manifest f at_ o ann ->
     at' = d_at (result_desc f m) ->
@@ -475,16 +550,16 @@ Section PackProofs.
     intros MR EC S0 B0 I0 -> -> P.
     destruct (push_manifest_spec _ _ _ _ _ _ _ P _ eq_refl) as (S1 & [(-> & St) | (-> & F)]).
     - apply (OutOk f tc fa s at_ o now s' evs ann (requested_manifest f at_ o ann));
-        [exact MR | exact EC | reflexivity | eapply steps_trans; eauto | exact B0 | exact St |].
-      eapply Forall_impl; [|exact I0]. intros x Hx. eapply stored_steps; eauto.
+        [exact MR | exact EC | reflexivity | eapply stepsk_trans; eauto | exact B0 | exact St |].
+      eapply Forall_impl; [|exact I0]. intros x Hx. eapply stored_stepsk; eauto.
     - apply (OutFaultManifest f tc fa s at_ o now s' evs ann (requested_manifest f at_ o ann));
-        [exact MR | exact F | exact EC | reflexivity | eapply steps_trans; eauto | exact B0].
+        [exact MR | exact F | exact EC | reflexivity | eapply stepsk_trans; eauto | exact B0].
   Qed.
 
   (* the common tail: fill in created, marshal, push the manifest *)
   Lemma tail_outcome f tc fa s at_ o now s1 evs (m_of : list kv -> manifest) at' s' r :
     must_reject f at_ o = false ->
-    steps s s1 evs -> Forall blob_ev evs ->
+    stepsk (t_key tc) s s1 evs -> Forall (inv_ev f at_ o) evs ->
     Forall (fun x => stored (t_key tc) (s_store s1) x = true) (invented f at_ o) ->
     (forall ann, m_of ann = requested_manifest f at_ o ann) ->
     (forall ann, at' = d_at (result_desc f (requested_manifest f at_ o ann))) ->
@@ -501,6 +576,9 @@ Section PackProofs.
     - injection P as <- <-. apply (OutBadCreated f tc fa s at_ o now s1 evs); auto.
   Qed.
 
+  Ltac own2inv B :=
+    eapply own_inv; [|exact B]; try (match goal with x := _ |- _ => subst x end); simpl; auto.
+
   Lemma rc2_outcome tc fa s at_ o now s' r :
     pack_rc2 marshal H tc fa s at_ o now = (s', r) -> outcome FRC2 tc fa s at_ o now s' r.
   Proof.
@@ -513,7 +591,7 @@ Section PackProofs.
             [reflexivity | exact EC | reflexivity | exact S1 | constructor | exact St | constructor].
         * apply (OutFaultManifest FRC2 tc fa s at_ o now s' [] ann (requested_manifest FRC2 at_ o ann));
             [reflexivity | exact F | exact EC | reflexivity | exact S1 | constructor].
-      + intros [= <- <-]. apply (OutBadCreated FRC2 tc fa s at_ o now s []); auto using steps_refl.
+      + intros [= <- <-]. apply (OutBadCreated FRC2 tc fa s at_ o now s []); auto using stepsk_refl.
     - pose (o := mkOpts subj lay ann0 None cann).
       destruct (push_custom_empty_config H tc fa s (if is_empty at_ then MediaTypeUnknownConfig else at_) cann)
         as [s1 [c|]] eqn:PC;
@@ -522,12 +600,12 @@ Section PackProofs.
       + destruct (ensure_created ann0 AnnotationCreated now) as [ann|] eqn:EC.
         * intro P. destruct (push_manifest_spec _ _ _ _ _ _ _ P _ eq_refl) as (S1 & [(-> & St) | (-> & F)]).
           -- apply (OutOk FRC2 tc fa s at_ o now s' evs ann (requested_manifest FRC2 at_ o ann));
-               [reflexivity | exact EC | reflexivity | eapply steps_trans; eauto | exact B0 | exact St |].
-             constructor; [|constructor]. eapply stored_steps; eauto.
+               [reflexivity | exact EC | reflexivity | eapply stepsk_trans; eauto | own2inv B0 | exact St |].
+             constructor; [|constructor]. eapply stored_stepsk; eauto.
           -- apply (OutFaultManifest FRC2 tc fa s at_ o now s' evs ann (requested_manifest FRC2 at_ o ann));
-               [reflexivity | exact F | exact EC | reflexivity | eapply steps_trans; eauto | exact B0].
-        * intros [= <- <-]. apply (OutBadCreated FRC2 tc fa s at_ o now s1 evs); auto.
-      + intros [= <- <-]. apply (OutFaultBlob FRC2 tc fa s at_ o now s1 evs); auto.
+               [reflexivity | exact F | exact EC | reflexivity | eapply stepsk_trans; eauto | own2inv B0].
+        * intros [= <- <-]. apply (OutBadCreated FRC2 tc fa s at_ o now s1 evs); auto; try (own2inv B0).
+      + intros [= <- <-]. apply (OutFaultBlob FRC2 tc fa s at_ o now s1 evs); auto; try (own2inv B0).
   Qed.
 
   Lemma v1_0_outcome tc fa s at_ o now s' r :
@@ -543,7 +621,7 @@ Section PackProofs.
       + intro P.
         apply (tail_outcome FV10 tc fa s at_ o now s [] (fun ann => requested_manifest FV10 at_ o ann) (d_mt c));
           [ mr V
-          | apply steps_refl | constructor | constructor | reflexivity | reflexivity | exact P ].
+          | apply stepsk_refl | constructor | constructor | reflexivity | reflexivity | exact P ].
       + intros [= <- <-]. apply OutReject; [|right; left; reflexivity].
         mr V.
     - destruct at_ as [|a0 at_]; cbn [is_empty].
@@ -554,9 +632,9 @@ Section PackProofs.
         * intro P.
           apply (tail_outcome FV10 tc fa s [] o now s1 evs (fun ann => requested_manifest FV10 [] o ann)
                               MediaTypeUnknownConfig);
-            [ reflexivity | exact S0 | exact B0 | constructor; [exact St0 | constructor]
+            [ reflexivity | exact S0 | own2inv B0 | constructor; [exact St0 | constructor]
             | reflexivity | reflexivity | exact P ].
-        * intros [= <- <-]. apply (OutFaultBlob FV10 tc fa s [] o now s1 evs); auto.
+        * intros [= <- <-]. apply (OutFaultBlob FV10 tc fa s [] o now s1 evs); auto; try (own2inv B0).
       + pose (o := mkOpts None lay ann0 None cann).
         destruct (valid_media_type (a0 :: at_)) eqn:V.
         * destruct (push_custom_empty_config H tc fa s (a0 :: at_) cann) as [s1 [c|]] eqn:PC;
@@ -566,9 +644,9 @@ Section PackProofs.
              apply (tail_outcome FV10 tc fa s (a0 :: at_) o now s1 evs
                                  (fun ann => requested_manifest FV10 (a0 :: at_) o ann) (a0 :: at_));
                [ mr V
-               | exact S0 | exact B0 | constructor; [exact St0 | constructor]
+               | exact S0 | own2inv B0 | constructor; [exact St0 | constructor]
                | reflexivity | reflexivity | exact P ].
-          -- intros [= <- <-]. apply (OutFaultBlob FV10 tc fa s (a0 :: at_) o now s1 evs); auto.
+          -- intros [= <- <-]. apply (OutFaultBlob FV10 tc fa s (a0 :: at_) o now s1 evs); auto; try (own2inv B0).
              mr V.
         * intros [= <- <-]. apply OutReject; [|right; left; reflexivity].
           mr V.
@@ -601,34 +679,37 @@ Section PackProofs.
       assert (MR : must_reject FV11 at_ o = false).
       { refine (eq_trans MRE _). unfold invalid_config. cbn. now rewrite V. }
       destruct (ensure_created ann0 AnnotationCreated now) as [ann|] eqn:EC.
-      2:{ intros [= <- <-]. apply (OutBadCreated FV11 tc fa s at_ o now s []); auto using steps_refl. }
+      2:{ intros [= <- <-]. apply (OutBadCreated FV11 tc fa s at_ o now s []); auto using stepsk_refl. }
       destruct lay as [[|d0 l0]|]; cbn [layers_or_empty].
       + (* empty, non-nil layers: push the placeholder layer *)
         destruct (push_if_not_exist tc fa s DescriptorEmptyJSON empty_json) as [s2 ok] eqn:PL.
         destruct (pine_spec _ _ _ _ _ _ blob_desc_empty0 PL) as (evs & S0 & B0 & F0 & T0).
+        assert (B0' : Forall (inv_ev FV11 at_ o) evs) by (own2inv B0).
         destruct ok.
-        * intro P. apply (final_outcome FV11 tc fa s at_ o now s2 evs ann (requested_manifest FV11 at_ o ann) at_ s' r MR EC S0 B0); 
+        * intro P. apply (final_outcome FV11 tc fa s at_ o now s2 evs ann (requested_manifest FV11 at_ o ann) at_ s' r MR EC S0 B0'); 
             [ constructor; [auto | constructor] | reflexivity | reflexivity | exact P ].
-        * intros [= <- <-]. apply (OutFaultBlob FV11 tc fa s at_ o now s2 evs); auto.
-      + intro P. apply (final_outcome FV11 tc fa s at_ o now s [] ann (requested_manifest FV11 at_ o ann) at_ s' r MR EC (steps_refl s));
+        * intros [= <- <-]. apply (OutFaultBlob FV11 tc fa s at_ o now s2 evs); auto; try (own2inv B0).
+      + intro P. apply (final_outcome FV11 tc fa s at_ o now s [] ann (requested_manifest FV11 at_ o ann) at_ s' r MR EC (stepsk_refl (t_key tc) s));
           [ constructor | constructor | reflexivity | reflexivity | exact P ].
       + destruct (push_if_not_exist tc fa s DescriptorEmptyJSON empty_json) as [s2 ok] eqn:PL.
         destruct (pine_spec _ _ _ _ _ _ blob_desc_empty0 PL) as (evs & S0 & B0 & F0 & T0).
+        assert (B0' : Forall (inv_ev FV11 at_ o) evs) by (own2inv B0).
         destruct ok.
-        * intro P. apply (final_outcome FV11 tc fa s at_ o now s2 evs ann (requested_manifest FV11 at_ o ann) at_ s' r MR EC S0 B0); 
+        * intro P. apply (final_outcome FV11 tc fa s at_ o now s2 evs ann (requested_manifest FV11 at_ o ann) at_ s' r MR EC S0 B0'); 
             [ constructor; [auto | constructor] | reflexivity | reflexivity | exact P ].
-        * intros [= <- <-]. apply (OutFaultBlob FV11 tc fa s at_ o now s2 evs); auto.
+        * intros [= <- <-]. apply (OutFaultBlob FV11 tc fa s at_ o now s2 evs); auto; try (own2inv B0).
     - pose (o := mkOpts subj lay ann0 None cann). intro MRE.
       assert (MR : must_reject FV11 at_ o = false) by (refine (eq_trans MRE _); reflexivity).
       destruct (push_if_not_exist tc fa s (with_ann DescriptorEmptyJSON cann) empty_json) as [s1 ok] eqn:PC.
       destruct (pine_spec _ _ _ _ _ _ (blob_desc_empty cann) PC) as (evs & S0 & B0 & F0 & T0).
+      assert (B0' : Forall (inv_ev FV11 at_ o) evs) by (own2inv B0).
       destruct ok.
-      2:{ intros [= <- <-]. apply (OutFaultBlob FV11 tc fa s at_ o now s1 evs); auto. }
+      2:{ intros [= <- <-]. apply (OutFaultBlob FV11 tc fa s at_ o now s1 evs); auto; try (own2inv B0). }
       specialize (T0 eq_refl).
       destruct (ensure_created ann0 AnnotationCreated now) as [ann|] eqn:EC.
-      2:{ intros [= <- <-]. apply (OutBadCreated FV11 tc fa s at_ o now s1 evs); auto. }
+      2:{ intros [= <- <-]. apply (OutBadCreated FV11 tc fa s at_ o now s1 evs); auto; try (own2inv B0). }
       destruct lay as [[|d0 l0]|]; cbn [layers_or_empty]; intro P;
-        apply (final_outcome FV11 tc fa s at_ o now s1 evs ann (requested_manifest FV11 at_ o ann) at_ s' r MR EC S0 B0);
+        apply (final_outcome FV11 tc fa s at_ o now s1 evs ann (requested_manifest FV11 at_ o ann) at_ s' r MR EC S0 B0');
         try reflexivity; try exact P.
       + constructor; [exact T0|]. constructor; [|constructor]. apply (stored_untitled _ _ _ cann); [reflexivity | exact T0].
       + constructor; [exact T0|]. constructor.
@@ -660,6 +741,12 @@ Section PackProofs.
   (* ---------------------------------------------------------------- *)
   (* 6. the property                                                   *)
   (* ---------------------------------------------------------------- *)
+
+  Ltac to_blob :=
+    repeat match goal with
+           | Hh : Forall (inv_ev _ _ _) _ |- _ => apply inv_blob in Hh
+           | Hs : stepsk _ _ _ _ |- _ => apply stepsk_steps in Hs
+           end.
 
   (* 6a. rejection happens before any storage operation *)
   Theorem reject_before_push f tc fa s at_ o now :
@@ -704,7 +791,7 @@ Section PackProofs.
   Proof.
     intros G R P.
     assert (EC : ensure_created (o_ann o) (created_key f) now = None) by (apply ensure_created_none; eauto).
-    apply pack_outcome in P. inversion P; subst; try congruence.
+    apply pack_outcome in P. inversion P; subst; try congruence; to_blob.
     - split; [exists e; split; [reflexivity | congruence]|].
       split; [exists []; split; [apply steps_refl | constructor]|].
       exists []. split; [now rewrite app_nil_r | constructor].
@@ -725,7 +812,170 @@ Section PackProofs.
       stored (t_key tc) (s_store s') d = true /\
       Forall (fun x => stored (t_key tc) (s_store s') x = true) (invented f at_ o).
   Proof.
-    intro P. apply pack_outcome in P. inversion P; subst. exists ann, evs. auto 10.
+    intro P. apply pack_outcome in P. inversion P; subst. to_blob. exists ann, evs. auto 10.
+  Qed.
+
+  (* which storage operations a successful call issues: Exists / Push of "{}" for descriptors it
+     invented -- nothing else -- and then the push of the manifest *)
+  Theorem ok_operations f tc fa s at_ o now s' d m :
+    pack marshal H f tc fa s at_ o now = (s', Ok d m) ->
+    exists evs, s_events s' = s_events s ++ evs ++ [EvPush RManifest d (marshal m)] /\
+                Forall (inv_ev f at_ o) evs.
+  Proof.
+    intro P. apply pack_outcome in P. inversion P; subst. exists evs.
+    match goal with Hs : stepsk _ _ _ _ |- _ => destruct Hs as ((E & _) & _) end. split; auto.
+  Qed.
+
+  (* ... and a failing call issues at most such operations and the manifest push *)
+  Theorem err_operations f tc fa s at_ o now s' e :
+    pack marshal H f tc fa s at_ o now = (s', Err e) ->
+    exists evs, Forall (inv_ev f at_ o) evs /\
+                (s_events s' = s_events s ++ evs \/
+                 exists d m, s_events s' = s_events s ++ evs ++ [EvPush RManifest d (marshal m)]).
+  Proof.
+    intro P. apply pack_outcome in P. inversion P; subst.
+    - exists []. split; [constructor | left; now rewrite app_nil_r].
+    - exists evs. match goal with Hs : stepsk _ _ _ _ |- _ => destruct Hs as ((E & _) & _) end. split; auto.
+    - exists evs. match goal with Hs : stepsk _ _ _ _ |- _ => destruct Hs as ((E & _) & _) end. split; auto.
+    - exists evs. match goal with Hs : stepsk _ _ _ _ |- _ => destruct Hs as ((E & _) & _) end. split; auto.
+      right. eauto.
+  Qed.
+
+  (* for these key disciplines Exists and "Push answers ErrAlreadyExists" are the same question *)
+  Lemma stored_push_dup k st d : k <> KFile -> stored k st d = push_dup k st d.
+  Proof. destruct k; try reflexivity. congruence. Qed.
+
+  Lemma entry_name_nofile k d : k <> KFile -> entry_name k d = [].
+  Proof. destruct k; try reflexivity. congruence. Qed.
+
+  (* Idempotence on content-addressed targets (memory, OCI layout, registry; with or without Exists,
+     whatever they held before): repeating a successful call with a fixed created annotation returns the
+     same descriptor and manifest and leaves the store exactly as it was -- every Exists answers true or
+     every Push answers ErrAlreadyExists, which Pack swallows. *)
+  Theorem repeat_call_changes_nothing f tc fa1 s at_ o now1 now2 s1 d m v s2 r2 :
+    t_key tc <> KFile ->
+    ann_get (created_key f) (o_ann o) = Some v ->
+    pack marshal H f tc fa1 s at_ o now1 = (s1, Ok d m) ->
+    pack marshal H f tc None s1 at_ o now2 = (s2, r2) ->
+    r2 = Ok d m /\ s_store s2 = s_store s1.
+  Proof.
+    intros NF G P1 P2.
+    apply pack_outcome in P1. inversion P1 as [| | | | s1' evs1 ann1 m1 MR1 EC1 Em1 S1 B1 St1 I1]; subst.
+    rewrite (ensure_created_fixed _ _ now1 now2 v G) in EC1.
+    apply pack_outcome in P2. inversion P2 as [e MR2 V2 | s2' evs2 MR2 EC2 S2 B2 | s2' evs2 MR2 F2 S2 B2
+                                              | s2' evs2 ann2 m2 MR2 F2 EC2 Em2 S2 B2
+                                              | s2' evs2 ann2 m2 MR2 EC2 Em2 S2 B2 St2 I2]; subst;
+      try congruence; try (destruct F2 as [F2 | F2]; congruence).
+    rewrite EC1 in EC2. injection EC2 as <-. split; [reflexivity|].
+    destruct S2 as (_ & l & E & PB & FR). rewrite E.
+    destruct l as [|e l]; [now rewrite app_nil_r | exfalso].
+    inversion PB as [|? ? (r & d0 & bytes & In0 & ->) _]; subst.
+    inversion FR as [|? ? Fe _]; subst.
+    assert (N : is_nil (e_name (mkEntry (d_mt d0) (d_dg d0) (d_sz d0) bytes (entry_name (t_key tc) d0))) = true).
+    { cbn [e_name]. now rewrite entry_name_nofile. }
+    specialize (Fe N). rewrite push_dup_as_desc, <- stored_push_dup in Fe by exact NF.
+    assert (St0 : stored (t_key tc) (s_store s1) d0 = true).
+    { apply in_app_or in In0 as [In0 | In0].
+      - rewrite Forall_forall in B2. destruct (B2 _ In0) as (_ & d' & Id' & [Ev | Ev]); [discriminate|].
+        injection Ev as _ -> _. rewrite Forall_forall in I1. now apply I1.
+      - destruct In0 as [Ev | []]. injection Ev as _ <- _. exact St1. }
+    congruence.
+  Qed.
+
+  (* which error a rejected call returns (the order of the checks in the source) *)
+  Definition reject_err (f : fn) (at_ : str) (o : opts) : err :=
+    match f with
+    | FV10 => if is_some (o_subject o) then EUnsupported else EInvalidMediaType
+    | FV11 => if is_empty at_ && config_is_empty_or_nil o then EMissingArtifactType else EInvalidMediaType
+    | _ => EUnsupported
+    end.
+
+  Theorem reject_exact f tc fa s at_ o now :
+    must_reject f at_ o = true ->
+    pack marshal H f tc fa s at_ o now = (s, Err (reject_err f at_ o)).
+  Proof.
+    intro MR. destruct f; try discriminate; try reflexivity.
+    - (* v1.0 *)
+      unfold pack, pack_v1_0, reject_err. unfold must_reject, invalid_config in MR.
+      destruct o as [subj lay ann0 cfg cann]. cbn [o_subject o_config o_config_ann o_ann o_layers] in *.
+      destruct subj as [sj|]; [reflexivity|]. cbn [is_some orb] in *.
+      destruct cfg as [c|]; cbn [is_some negb andb orb] in *.
+      + rewrite orb_false_r in MR. apply negb_true_iff in MR. now rewrite MR.
+      + destruct at_ as [|a0 at_]; cbn [is_empty negb andb] in *; [discriminate|].
+        apply negb_true_iff in MR. now rewrite MR.
+    - (* v1.1 *)
+      unfold pack, pack_v1_1, reject_err. unfold must_reject in MR.
+      destruct (is_empty at_ && config_is_empty_or_nil o) eqn:G1; [reflexivity|].
+      destruct (negb (is_empty at_) && negb (valid_media_type at_)) eqn:G2; [reflexivity|].
+      cbn [orb] in MR. unfold pack_v1_1_body. unfold invalid_config in MR.
+      destruct (o_config o) as [c|]; [|discriminate]. apply negb_true_iff in MR. now rewrite MR.
+  Qed.
+
+  (* Progress: on a target that does not fail (no injected fault, not a file store, which may refuse a
+     taken name) a call is classified by its input alone -- rejected, malformed created, or success; a
+     valid input always succeeds. *)
+  Theorem healthy_target_classification f tc s at_ o now s' r :
+    t_key tc <> KFile ->
+    pack marshal H f tc None s at_ o now = (s', r) ->
+    (must_reject f at_ o = true /\ exists e, r = Err e /\ validation_err e /\ s' = s) \/
+    (must_reject f at_ o = false /\ ensure_created (o_ann o) (created_key f) now = None /\ r = Err EInvalidDateTime) \/
+    (must_reject f at_ o = false /\
+     exists ann, ensure_created (o_ann o) (created_key f) now = Some ann /\
+                 r = Ok (result_desc f (requested_manifest f at_ o ann)) (requested_manifest f at_ o ann)).
+  Proof.
+    intros NF P. apply pack_outcome in P.
+    inversion P as [e MR V | s2 evs MR EC S B | s2 evs MR F S B | s2 evs ann m MR F EC Em S B
+                    | s2 evs ann m MR EC Em S B St I]; subst.
+    - left. split; auto. exists e. auto.
+    - right. left. auto.
+    - destruct F as [F | F]; congruence.
+    - destruct F as [F | F]; congruence.
+    - right. right. split; auto. exists ann. auto.
+  Qed.
+
+  Corollary valid_input_succeeds f tc s at_ o now ann s' r :
+    t_key tc <> KFile ->
+    must_reject f at_ o = false ->
+    ensure_created (o_ann o) (created_key f) now = Some ann ->
+    pack marshal H f tc None s at_ o now = (s', r) ->
+    r = Ok (result_desc f (requested_manifest f at_ o ann)) (requested_manifest f at_ o ann).
+  Proof.
+    intros NF MR EC P.
+    destruct (healthy_target_classification _ _ _ _ _ _ _ _ NF P) as [(MR' & _) | [(_ & EC' & _) | (_ & ann' & EC' & ->)]];
+      try congruence.
+  Qed.
+
+  (* the same for any state in which the result and the invented blobs are already present (e.g. after
+     any number of other calls): the call finds everything there, returns the same, stores nothing *)
+  Theorem settled_call_changes_nothing f tc s at_ o now ann s2 r2 :
+    t_key tc <> KFile ->
+    must_reject f at_ o = false ->
+    ensure_created (o_ann o) (created_key f) now = Some ann ->
+    stored (t_key tc) (s_store s) (result_desc f (requested_manifest f at_ o ann)) = true ->
+    Forall (fun x => stored (t_key tc) (s_store s) x = true) (invented f at_ o) ->
+    pack marshal H f tc None s at_ o now = (s2, r2) ->
+    r2 = Ok (result_desc f (requested_manifest f at_ o ann)) (requested_manifest f at_ o ann) /\
+    s_store s2 = s_store s.
+  Proof.
+    intros NF MR EC1 St1 I1 P2.
+    apply pack_outcome in P2. inversion P2 as [e MR2 V2 | s2' evs2 MR2 EC2 S2 B2 | s2' evs2 MR2 F2 S2 B2
+                                              | s2' evs2 ann2 m2 MR2 F2 EC2 Em2 S2 B2
+                                              | s2' evs2 ann2 m2 MR2 EC2 Em2 S2 B2 St2 I2]; subst;
+      try congruence; try (destruct F2 as [F2 | F2]; congruence).
+    rewrite EC1 in EC2. injection EC2 as <-. split; [reflexivity|].
+    destruct S2 as (_ & l & E & PB & FR). rewrite E.
+    destruct l as [|e l]; [now rewrite app_nil_r | exfalso].
+    inversion PB as [|? ? (r & d0 & bytes & In0 & ->) _]; subst.
+    inversion FR as [|? ? Fe _]; subst.
+    assert (N : is_nil (e_name (mkEntry (d_mt d0) (d_dg d0) (d_sz d0) bytes (entry_name (t_key tc) d0))) = true).
+    { cbn [e_name]. now rewrite entry_name_nofile. }
+    specialize (Fe N). rewrite push_dup_as_desc, <- stored_push_dup in Fe by exact NF.
+    assert (St0 : stored (t_key tc) (s_store s) d0 = true).
+    { apply in_app_or in In0 as [In0 | In0].
+      - rewrite Forall_forall in B2. destruct (B2 _ In0) as (_ & d' & Id' & [Ev | Ev]); [discriminate|].
+        injection Ev as _ -> _. rewrite Forall_forall in I1. now apply I1.
+      - destruct In0 as [Ev | []]. injection Ev as _ <- _. exact St1. }
+    congruence.
   Qed.
 
   Lemma requested_ann f at_ o ann : m_ann (requested_manifest f at_ o ann) = ann.
@@ -777,7 +1027,7 @@ Section PackProofs.
     pack marshal H f tc fa s at_ o now = (s', r) ->
     exists evs, steps s s' evs /\ Forall consistent_ev evs.
   Proof.
-    intro P. apply pack_outcome in P. inversion P; subst.
+    intro P. apply pack_outcome in P. inversion P; subst; to_blob.
     - exists []. split; [apply steps_refl | constructor].
     - exists evs. split; auto. eapply Forall_impl; [|eassumption]. apply blob_ev_consistent.
     - exists evs. split; auto. eapply Forall_impl; [|eassumption]. apply blob_ev_consistent.
@@ -916,7 +1166,8 @@ Section PermProofs.
   (* json.Marshal writes map keys in sorted order: the bytes do not depend on the order in which
      the annotations are listed *)
   Hypothesis marshal_perm : forall k c l sj a ann ann',
-      Permutation ann ann' -> marshal (mkManifest k c l sj a ann) = marshal (mkManifest k c l sj a ann').
+      NoDup (map fst ann) -> Permutation ann ann' ->
+      marshal (mkManifest k c l sj a ann) = marshal (mkManifest k c l sj a ann').
 
   Definition same_but_ann (o o' : opts) : Prop :=
     o_subject o = o_subject o' /\ o_layers o = o_layers o' /\ o_config o = o_config o' /\
@@ -949,6 +1200,111 @@ Section PermProofs.
     destruct (rfc3339_ok v); [|discriminate]. injection EC1 as <-. injection EC2 as <-.
     destruct (requested_manifest_perm f at_ o o' _ _ S P) as (k & c & l & sj & a & -> & ->).
     unfold result_desc. cbn [m_kind m_ann m_config m_at d_dg d_sz d_mt d_at d_ann d_extra m_layers m_subject].
-    rewrite (marshal_perm k c l sj a _ _ P). repeat split; auto.
+    rewrite (marshal_perm k c l sj a _ _ N P). repeat split; auto.
   Qed.
 End PermProofs.
+
+(* ------------------------------------------------------------------ *)
+(* 8. histories: every sequence of calls on one target                 *)
+(* ------------------------------------------------------------------ *)
+Section HistoryProofs.
+  Variable marshal : manifest -> str.
+  Variable H : str -> str.
+  Hypothesis H_empty : H empty_json = empty_json_digest.
+
+  (* a whole history only adds content-consistent entries *)
+  Lemma run_calls_steps tc fa cs : forall s s' rs,
+    run_calls marshal H tc fa s cs = (s', rs) ->
+    exists evs, steps s s' evs /\ Forall (consistent_ev H) evs.
+  Proof.
+    induction cs as [|c cs IH]; intros s s' rs R; simpl in R.
+    - injection R as <- <-. exists []. split; [apply steps_refl | constructor].
+    - destruct (pack marshal H (c_fn c) tc fa s (c_at c) (c_opts c) (c_now c)) as [s1 r1] eqn:P.
+      destruct (run_calls marshal H tc fa s1 cs) as [s2 rs2] eqn:R2. injection R as <- <-.
+      destruct (pack_pushes_consistent marshal H H_empty _ _ _ _ _ _ _ _ _ P) as (e1 & S1 & C1).
+      destruct (IH _ _ _ R2) as (e2 & S2 & C2).
+      exists (e1 ++ e2). split; [eapply steps_trans; eauto | apply Forall_app; auto].
+  Qed.
+
+  Theorem history_preserves_wf tc fa cs s s' rs :
+    run_calls marshal H tc fa s cs = (s', rs) -> wf_store H (s_store s) -> wf_store H (s_store s').
+  Proof.
+    intros R W. destruct (run_calls_steps _ _ _ _ _ _ R) as (evs & S & C). eapply steps_wf; eauto.
+  Qed.
+
+  (* what an earlier call returned is still there after any later calls (failed ones included):
+     its descriptor answers Exists, and under it lies content with the digest of its manifest --
+     for a collision-free digest, exactly the marshalled manifest *)
+  Theorem history_results_stay tc fa cs : forall s s' rs d m,
+    wf_store H (s_store s) ->
+    run_calls marshal H tc fa s cs = (s', rs) ->
+    In (Ok d m) rs ->
+    stored (t_key tc) (s_store s') d = true /\
+    d_dg d = H (marshal m) /\
+    exists e, In e (s_store s') /\ same_key (t_key tc) d e = true /\ H (e_bytes e) = H (marshal m) /\
+              ((forall x y, H x = H y -> x = y) -> e_bytes e = marshal m).
+  Proof.
+    induction cs as [|c cs IH]; intros s s' rs d m W R I; simpl in R.
+    - injection R as <- <-. contradiction.
+    - destruct (pack marshal H (c_fn c) tc fa s (c_at c) (c_opts c) (c_now c)) as [s1 r1] eqn:P.
+      destruct (run_calls marshal H tc fa s1 cs) as [s2 rs2] eqn:R2. injection R as <- <-.
+      pose proof (pack_preserves_wf marshal H H_empty _ _ _ _ _ _ _ _ _ P W) as W1.
+      destruct I as [-> | I]; [|eapply IH; eauto].
+      pose proof (history_preserves_wf _ _ _ _ _ _ R2 W1) as W2.
+      destruct (run_calls_steps _ _ _ _ _ _ R2) as (evs & S2 & _).
+      apply (ok_consistent marshal H H_empty) in P as (ann & e1 & _ & -> & -> & _ & _ & St & _).
+      pose proof (stored_steps _ _ _ _ _ S2 St) as St2. split; [exact St2|]. split; [reflexivity|].
+      destruct (stored_In _ _ _ St2) as (e & In' & K). exists e. split; auto. split; auto.
+      unfold wf_store in W2. rewrite Forall_forall in W2. destruct (W2 _ In') as (D1 & _).
+      pose proof (same_key_dg _ _ _ K) as D. simpl in D.
+      assert (HE : H (e_bytes e) = H (marshal (requested_manifest H (c_fn c) (c_at c) (c_opts c) ann))) by congruence.
+      split; auto.
+  Qed.
+
+  (* "so the result can be copied": when the descriptors the caller supplied are in the target, the
+     packed manifest and all its successors are -- the source-closed hypothesis of the copy theorems
+     (C01) holds one level down from the new root, the rest is the caller's graph *)
+  Theorem ok_closed_when_supplied_present f tc fa s at_ o now s' d m :
+    Forall (fun x => stored (t_key tc) (s_store s) x = true) (supplied o) ->
+    pack marshal H f tc fa s at_ o now = (s', Ok d m) ->
+    stored (t_key tc) (s_store s') d = true /\
+    Forall (fun x => stored (t_key tc) (s_store s') x = true) (successors m).
+  Proof.
+    intros Sup P. pose proof (ok_closed marshal H H_empty _ _ _ _ _ _ _ _ _ _ P) as C.
+    destruct (ok_consistent marshal H H_empty _ _ _ _ _ _ _ _ _ _ P) as (ann & evs & _ & _ & _ & S & _ & St & _).
+    split; [exact St|]. apply Forall_forall. intros x Ix. destruct (C x Ix) as [I | I]; auto.
+    rewrite Forall_forall in Sup. eapply stored_steps; eauto.
+  Qed.
+
+  (* Repeating an earlier successful call (fixed created) after ANY other calls on a content-addressed
+     target returns what it returned then and stores nothing. *)
+  Theorem history_repeat_changes_nothing tc c cs fa1 s s1 d m v sB rsB now' sC r :
+    t_key tc <> KFile ->
+    ann_get (created_key (c_fn c)) (o_ann (c_opts c)) = Some v ->
+    pack marshal H (c_fn c) tc fa1 s (c_at c) (c_opts c) (c_now c) = (s1, Ok d m) ->
+    run_calls marshal H tc None s1 cs = (sB, rsB) ->
+    pack marshal H (c_fn c) tc None sB (c_at c) (c_opts c) now' = (sC, r) ->
+    r = Ok d m /\ s_store sC = s_store sB.
+  Proof.
+    intros NF G P1 R P2.
+    pose proof (ok_not_rejected marshal H H_empty _ _ _ _ _ _ _ _ _ _ P1) as MR.
+    destruct (ok_consistent marshal H H_empty _ _ _ _ _ _ _ _ _ _ P1) as (ann & evs & EC & -> & -> & _ & _ & St & I).
+    destruct (run_calls_steps _ _ _ _ _ _ R) as (evs2 & S2 & _).
+    rewrite (ensure_created_fixed _ _ (c_now c) now' v G) in EC.
+    apply (settled_call_changes_nothing marshal H H_empty (c_fn c) tc sB (c_at c) (c_opts c) now' ann sC r NF MR EC).
+    - eapply stored_steps; eauto.
+    - eapply Forall_impl; [|exact I]. intros x Sx. eapply stored_steps; eauto.
+    - exact P2.
+  Qed.
+
+  (* the number of results is the number of calls: every call ends (no call is lost or repeated) *)
+  Lemma run_calls_length tc fa cs : forall s s' rs,
+    run_calls marshal H tc fa s cs = (s', rs) -> length rs = length cs.
+  Proof.
+    induction cs as [|c cs IH]; intros s s' rs R; simpl in R.
+    - now injection R as <- <-.
+    - destruct (pack marshal H (c_fn c) tc fa s (c_at c) (c_opts c) (c_now c)) as [s1 r1].
+      destruct (run_calls marshal H tc fa s1 cs) as [s2 rs2] eqn:R2. injection R as <- <-.
+      simpl. f_equal. eapply IH; eauto.
+  Qed.
+End HistoryProofs.
